@@ -14,9 +14,9 @@ def nontrivial(req, obs):
 
 PROP = {
     "id": "C04",
-    "lean_targets": ["WmModel.Props.C05Prod", "WmModel.Props.C04Exit", "WmModel.Props.C05Reg", 'WmModel.Props.C04', 'WmModel.Props.C11'],
+    "lean_targets": ["WmModel.Props.C04Prod", "WmModel.Props.C05Prod", "WmModel.Props.C04Exit", "WmModel.Props.C05Reg", 'WmModel.Props.C04', 'WmModel.Props.C11'],
     "audit_module": "Audit.C04",
-    "theorems": ["Wm.GcProd.publications_are_the_log", "Wm.GcProd.exactly_once_when_all_acked", "Wm.GcProd.prod_witness", "Wm.GcSub.acked_exit_means_delivered_and_acked", "Wm.GcSub.unacked_exit_means_closing", "Wm.GcSub.sender_exits_once", "Wm.GcReg.send_starts_one_sender_per_registered", 'Wm.GcSub.redelivery_only_after_nack', 'Wm.GcSub.at_most_one_live_copy', 'Wm.GcSub.delivery_uses_fresh_copy', 'Wm.GcSub.unsettled_copy_has_live_sender', 'Wm.GcSub.nack_means_resend', 'Wm.GcSub.one_unsettled_inv', 'Wm.GcTopic.mid_publish'],
+    "theorems": ["Wm.GcProd.send_starts_sender_for_registered", "Wm.GcProd.send_starts_nothing_for_other_topics", "Wm.GcProd.no_sender_is_lost", "Wm.GcProd.delivery_witness", "Wm.GcProd.publications_are_the_log", "Wm.GcProd.exactly_once_when_all_acked", "Wm.GcProd.prod_witness", "Wm.GcSub.acked_exit_means_delivered_and_acked", "Wm.GcSub.unacked_exit_means_closing", "Wm.GcSub.sender_exits_once", "Wm.GcReg.send_starts_one_sender_per_registered", 'Wm.GcSub.redelivery_only_after_nack', 'Wm.GcSub.at_most_one_live_copy', 'Wm.GcSub.delivery_uses_fresh_copy', 'Wm.GcSub.unsettled_copy_has_live_sender', 'Wm.GcSub.nack_means_resend', 'Wm.GcSub.one_unsettled_inv', 'Wm.GcTopic.mid_publish'],
     "tie_theorems": [],
     "harness": "c04",
     "race": True,
